@@ -39,7 +39,7 @@ Tags(conds) == { c[2] : c \in { x \in conds : x[1] } }
 NoCfg == [secrets |-> <<>>, users |-> <<>>, deny |-> <<>>, allow |-> <<>>]
 NoReq == [c |-> -1, sid |-> <<>>, hdr |-> [maj |-> 0, min |-> 0, ty |-> 0, seq |-> 0, fl |-> 0, sid |-> <<>>, len |-> <<>>], b |-> <<>>, l |-> 0]
 ObsInit == [req |-> NoReq, pend |-> FALSE, wr |-> 0, inv |-> 0, sinks |-> <<>>,
-            t |-> << >>, reps |-> << >>, nfeed |-> << >>, iso |-> {}, bad |-> {}, noisy |-> FALSE]
+            t |-> << >>, reps |-> << >>, nfeed |-> << >>, iso |-> {}, bad |-> {}, noisy |-> FALSE, overlap |-> FALSE]
 EmptyFn == [x \in {} |-> 0]
 
 \* the secret configuration a connection is bound to (0 = refused), per the Admission oracle
@@ -102,7 +102,9 @@ ObsWr(e) ==
           \* C11
           << o.pend /\ r.hdr.ty = 2 /\ t.stage = "idle" /\ d.ok /\ ScopeIdx(r.c) > 0
              /\ AuthzViolation(cfg, scope, r.b, d.v), "C11" >> })
-   IN IF o.pend /\ o.inv = 0
+   IN IF o.overlap
+      THEN [o EXCEPT !.wr = @ + 1, !.reps = Put(@, << e.c, w.sid >>, Append(Get(@, << e.c, w.sid >>, <<>>), b))]
+      ELSE IF o.pend /\ o.inv = 0
       THEN \* written by the reader, not by a handler: the key-mismatch error packet (judged by C19 in the server family)
            [o EXCEPT !.wr = @ + 1, !.reps = Put(@, key, Append(Get(@, key, <<>>), b))]
       ELSE [o EXCEPT !.wr = @ + 1, !.bad = @ \cup new,
@@ -185,6 +187,11 @@ Next ==
                                   << o.pend /\ e.b # o.req.b, "C03" >> })
                 IN o' = Quiet([o EXCEPT !.inv = @ + 1, !.bad = @ \cup new]) /\ Report(Quiet([o EXCEPT !.bad = @ \cup new]).bad \ o.bad, e)
              /\ UNCHANGED << sc, cfg, conns, ms, div >>
+        [] e.e = "overlap" ->
+             \* requests of several connections are in flight together: replies are only collected per (connection, session)
+             \* and compared with the isolated re-runs at the end (C09); crash-freedom and log hygiene stay judged
+             /\ o' = [o EXCEPT !.noisy = TRUE, !.overlap = TRUE]
+             /\ UNCHANGED << sc, cfg, conns, ms, div >>
         [] e.e = "feedraw" ->
              /\ o' = [o EXCEPT !.noisy = TRUE, !.pend = FALSE]
              /\ UNCHANGED << sc, cfg, conns, ms, div >>
@@ -226,7 +233,7 @@ Next ==
              /\ o' = [o EXCEPT !.bad = @ \cup {"C14"}] /\ PrintT(<< "PV", {"C14"}, sc, l, "panic" >>)
              /\ UNCHANGED << sc, cfg, conns, ms, div >>
         [] e.e = "end" ->
-             /\ LET new == IF o.noisy THEN {} ELSE IsoTags IN o' = [o EXCEPT !.bad = @ \cup new] /\ Report(new \ o.bad, e)
+             /\ LET new == IF o.noisy /\ ~o.overlap THEN {} ELSE IsoTags IN o' = [o EXCEPT !.bad = @ \cup new] /\ Report(new \ o.bad, e)
              /\ UNCHANGED << sc, cfg, conns, ms, div >>
         [] OTHER -> UNCHANGED << sc, cfg, conns, ms, div, o >>
 
